@@ -121,7 +121,7 @@ fn run_aasm_file(
 
     // assembly carries no manifest of its own: the project manifest next to the file applies,
     // as it does for a source file
-    let manifest = Manifest::for_source_file(path);
+    let manifest = Manifest::find_for_source_file(path).map_err(|err| err.to_string())?;
     let required_modules = collect_required_modules(&function);
     load_required_modules(
         &mut vm,
@@ -153,7 +153,7 @@ fn run_avbc_file(
     // manifest next to it
     let manifest = match manifest_bytes.as_deref() {
         Some(bytes) => Some(Manifest::from_bytes(bytes).map_err(|err| err.to_string())?),
-        None => Manifest::for_source_file(path),
+        None => Manifest::find_for_source_file(path).map_err(|err| err.to_string())?,
     };
 
     let bundled_modules: HashMap<String, aelys_bytecode::asm::NativeBundle> =
